@@ -4,6 +4,7 @@ import (
 	"context"
 	"encoding/json"
 	"fmt"
+	"os"
 	"sort"
 	"strings"
 	"sync"
@@ -56,6 +57,8 @@ func (h *CancelSrv) Sub(ctx context.Context, name string) (<-chan int, error) {
 type CancelCli struct {
 	Hold func(ctx context.Context, name string) (string, error)
 	Sub  func(ctx context.Context, name string) (<-chan int, error)
+	// SubA reaches Sub through a server-side alias
+	SubA func(ctx context.Context, name string) (<-chan int, error) `rpc_method:"alias.sub"`
 }
 
 // S-CANCEL (DESIGN §3 C06).
@@ -69,9 +72,17 @@ func init() {
 			add := func(set string, ws, bound int) {
 				ps = append(ps, Param{Name: fmt.Sprintf("%s-ws%d", set, ws), Bound: bound, V: map[string]int{"ws": ws}, S: map[string]string{"set": set}})
 			}
+			if os.Getenv("VPROP") == "C02" {
+				// C02 only needs "a call cancelled while in flight still gets its own response"
+				add("X", 1, 1)
+				if tier == "thorough" {
+					add("XY", 1, 1)
+				}
+				return ps
+			}
 			if tier == "quick" {
-				add("X", 1, 2)
-				add("Z", 1, 2)
+				add("X", 1, 1)
+				add("Z", 1, 1)
 				add("Y", 1, 1)
 				add("XZ", 1, 1)
 				add("X", 0, 1)
@@ -98,6 +109,7 @@ func cancelBody(s *vsched.Sched, p Param) {
 	w := NewWorld(s, jsonrpc.WithServerPingInterval(0))
 	srv := &CancelSrv{s: s, ctxs: map[string]context.Context{}, retd: map[string]bool{}}
 	w.RPC.Register("T", srv)
+	w.RPC.AliasMethod("alias.sub", "T.Sub")
 	w.Serve()
 	var cli, cli2 CancelCli
 	var err error
@@ -119,7 +131,7 @@ func cancelBody(s *vsched.Sched, p Param) {
 	obs := NewObs()
 	names := []string{"X", "Y", "V"}
 	if ws {
-		names = []string{"X", "Y", "Z", "V"}
+		names = []string{"X", "Y", "Z", "V", "W"} // W: a subscription through an alias, never cancelled
 	}
 	ctxs := map[string]context.Context{}
 	cancels := map[string]context.CancelFunc{}
@@ -145,7 +157,7 @@ func cancelBody(s *vsched.Sched, p Param) {
 		mu.Lock()
 		defer mu.Unlock()
 		for n, hc := range srv.ctxs {
-			if cancelled[n] || srv.retd[n] || returnedCall[n] && n != "Z" {
+			if cancelled[n] || srv.retd[n] || returnedCall[n] && n != "Z" && n != "W" {
 				continue
 			}
 			if hc.Err() != nil {
@@ -201,7 +213,7 @@ func cancelBody(s *vsched.Sched, p Param) {
 					s.Violate("C14: malformed frame on the wire: %q", f.Raw)
 					continue
 				}
-				if f.Method == "T.Hold" || f.Method == "T.Sub" {
+				if f.Method == "T.Hold" || f.Method == "T.Sub" || f.Method == "alias.sub" {
 					var ps []string
 					json.Unmarshal(f.Params, &ps)
 					if len(ps) == 1 {
@@ -238,8 +250,12 @@ func cancelBody(s *vsched.Sched, p Param) {
 		for _, n := range names {
 			if v, ok := obs.Get("ret-" + n); !ok {
 				s.Violate("C06: call %s never returned; alive: %s", n, strings.Join(s.Alive(), " "))
-			} else if !inSet(n) && n != "Z" && v != n+"/<nil>" {
+			} else if !inSet(n) && n != "Z" && n != "W" && v != n+"/<nil>" {
 				s.Violate("C06: call %s, which was not cancelled, returned %s", n, v)
+			} else if ws && inSet(n) && n != "Z" && v != n+"/<nil>" {
+				// over WebSocket a cancelled call keeps waiting for its response; the handler here
+				// answers with the call's own name once released
+				s.Violate("C02: call %s (cancelled while in flight) did not return the response the server produced for it: %s", n, v)
 			}
 		}
 		s.SetObs(obs.String())
@@ -252,8 +268,12 @@ func cancelBody(s *vsched.Sched, p Param) {
 			c = &cli2
 		}
 		s.Go("call-"+n, func() {
-			if n == "Z" {
-				ch, err := c.Sub(ctxs[n], n)
+			if n == "Z" || n == "W" {
+				sub := c.Sub
+				if n == "W" {
+					sub = c.SubA
+				}
+				ch, err := sub(ctxs[n], n)
 				obs.Set("ret-"+n, "%v/%s", ch != nil, errClass(err))
 				mu.Lock()
 				returnedCall[n] = true
